@@ -14,7 +14,7 @@ ASSUMPTIONS = [
     "A-REAL; the keys of the weight dictionary are the contest names (the code checks only its size): stated precondition",
     "weights are non-negative",
     "np.argsort / fancy indexing contracts: a column selected at a valid position of [B_1 | B_2] is SOME bootstrap column (arbitrary)",
-    "nat_sum_data_dict=None (equal weights) is not covered by the proof (dict comprehension over a symbolic range)",
+    "nat_sum_data_dict=None (equal weights): units summary.*.no_weight_dictionary ({i: 1 for i in range(n)} as a dict with n entries in index order)",
 ]
 
 # typestate: which calls write the state the summary reads (proved on the real aggregate functions)
@@ -62,13 +62,19 @@ def _setup(h, hard, corr, with_calls=True):
     return self, C, D, d, ndict, dict(pm=pm, called=called, stop=stop, wt=wt, e1=e1, e2=e2, B=B)
 
 
-def _summary(hard, corr, name):
+def _summary(hard, corr, name, none=False):
     @unit("C08", f"summary.{name}", fns=[f"{BEM}.get_national_summary_estimates"])
     def summary(h, name=name):
         self, C, D, d, ndict, s = _setup(h, hard, corr)
         alpha = h.real("alpha")
         h.requires("alpha_open", 0 < alpha, alpha < 1)
         base = h.real("base_to_add")
+        if none:
+            # no weight dictionary (Senate / House): the function builds {i: 1 for i in range(#contests)} itself -- every
+            # contest weighs 1 and the size check can never fire
+            s["wt"] = z3.IntVal(1)
+            h.requires("no_dictionary_so_its_size_is_the_number_of_contests", ndict.t == C.n)
+            d = None
         kind, res = h.call_method(self, "get_national_summary_estimates", d, base, alpha)
         wrong = ndict.t != C.n
         rps = lambda ev: {"target": "verif_replays:national_summary_dict_size_replay", "args": [bool(corr), bool(hard)], "check": "result['exc'] is None and result['ok']"}  # noqa: E731
@@ -93,7 +99,7 @@ def _summary(hard, corr, name):
         # ordering lower <= pred <= upper: the uncertainty terms Σ w*losses and Σ w*gains must be non-negative
         # (lemma sum_nonneg; its pointwise side condition is the real content: no contest may carry a NEGATIVE
         # potential loss or gain)
-        unc = [dd for dd in list(h.ctx.__dict__.get("_sums", [])) if dd.space is C and "weight" in str(dd.summand) and dd is not dtot and ("called" in str(dd.summand) or "stop" in str(dd.summand))]
+        unc = [dd for dd in list(h.ctx.__dict__.get("_sums", [])) if dd.space is C and (none or "weight" in str(dd.summand)) and dd is not dtot and ("called" in str(dd.summand) or "stop" in str(dd.summand))]
         h.ensures("two_uncertainty_terms", len(unc) == 2)
         for i, dd in enumerate(unc):
             side = "losses" if i == 0 else "gains"
@@ -127,3 +133,4 @@ def _summary(hard, corr, name):
 
 for _hard, _corr, _nm in ((True, True, "threshold.correlated"), (True, False, "threshold.independent"), (False, True, "sigmoid.correlated"), (False, False, "sigmoid.independent")):
     _summary(_hard, _corr, _nm)
+    _summary(_hard, _corr, _nm + ".no_weight_dictionary", none=True)
